@@ -37,7 +37,9 @@ package pod_info
 //@   loop 1
 //@     invariant old(pi.IsLegacyMIGtask) ==> pi.IsLegacyMIGtask
 //@     invariant !pi.IsLegacyMIGtask ==> gpuUnchanged(pi)
+//@     invariant pi.ResReq.migResources == old(pi.ResReq.migResources) || fresh(pi.ResReq.migResources)   // added by helper "cache"
 //@   ensures old(pi.IsLegacyMIGtask) ==> pi.IsLegacyMIGtask
+//@   ensures [migMapOwn] pi.ResReq.migResources == old(pi.ResReq.migResources) || fresh(pi.ResReq.migResources)   // added by helper "cache"
 //@   ensures [untouched-without-mig-annotation] !pi.IsLegacyMIGtask ==> gpuUnchanged(pi)
 //@ end
 
@@ -68,6 +70,7 @@ package pod_info
 // C12 "charge GPU groups in every snapshot": while a BindRequest that selected GPU groups is alive, the
 // snapshot charges exactly those groups - whatever gpu-group labels the pod carries at that moment (the
 // binder labels one group per ReserveGpuDevice call, and a failed attempt may leave a stale label).
+//@   ensures [migMapOwn] pi.ResReq.migResources == old(pi.ResReq.migResources) || fresh(pi.ResReq.migResources)   // added by helper "cache"
 //@   ensures [live-bindrequest-groups-win] bindRequest != nil && len(bindRequest.BindRequest.Spec.SelectedGPUGroups) > 0 ==> pi.GPUGroups == bindRequest.BindRequest.Spec.SelectedGPUGroups
 //@   ensures [agree-fraction] admitted(pi.Pod) && resources.hasFrac(pi.Pod) && !pi.IsLegacyMIGtask ==> pi.ResourceRequestType == RequestTypeFraction && isfinite(pi.ResReq.portion) && pi.ResReq.portion == resources.pfVal(resources.fracStr(pi.Pod)) && fval(pi.ResReq.portion) > 0.0 && fval(pi.ResReq.portion) < 1.0 && pi.ResReq.gpuMemory == 0
 //@   ensures [agree-memory] admitted(pi.Pod) && resources.hasMem(pi.Pod) && !pi.IsLegacyMIGtask ==> pi.ResourceRequestType == RequestTypeGpuMemory && pi.ResReq.gpuMemory == resources.piVal(resources.memStr(pi.Pod)) && pi.ResReq.gpuMemory >= 1 && pi.ResReq.portion == 0.0
@@ -185,7 +188,7 @@ package pod_info
 // DRA claims of the pod as the snapshot sees them: a new map with new entries; nothing that existed before is written.
 //@ func resourceClaimInfoFromPodClaims
 //@   props C10 C12
-//@   requires pod != nil
+//@   requires pod != nil && resource_info.claimsNonNil(draPodClaims)
 //@   requires bindRequest != nil ==> bindRequest.BindRequest != nil
 //@   loop 1
 //@     invariant 0 - 1 <= rangeindex && rangeindex < len(bindRequest.BindRequest.Spec.ResourceClaimAllocations)
@@ -197,6 +200,33 @@ package pod_info
 //@     invariant resourceClaimInfo != nil && fresh(resourceClaimInfo)
 //@     invariant forall k in bindingRequestClaimUpdates :: bindingRequestClaimUpdates[k] != nil && fresh(bindingRequestClaimUpdates[k])
 //@     invariant forall k in resourceClaimInfo :: resourceClaimInfo[k] != nil && fresh(resourceClaimInfo[k])
+//@     invariant forall a *schedulingv1alpha2.ResourceClaimAllocation :: a != nil && old(allocated(a)) ==> a.Allocation == old(a.Allocation)
 //@   ensures [newMap] result0 != nil && fresh(result0)
 //@   ensures [newEntries] forall k in result0 :: result0[k] != nil && fresh(result0[k])
+//@ end
+
+// C12 "From the moment the scheduler creates a BindRequest until it reaches a terminal outcome, every snapshot charges
+// the pod's resources (including GPU groups and claimed devices) to the selected node": the task the snapshot builds
+// for a pod with a live (= passed in, see GetBindRequestForPod) BindRequest has the status of getTaskStatus (Binding
+// for a pending, unbound, undeleted pod), is placed on the request's SelectedNode when the pod has no node yet, and
+// carries the request's SelectedGPUGroups.  "...terminally failed requests are deleted and their pods become
+// schedulable again": without a request (bindRequest == nil) the same pod is Pending/Gated on no node.
+// The result is a NEW task whose request objects are new as well (taskWF of node_info: what AddTask needs).
+//@ func NewTaskInfoWithBindRequest
+//@   props C12 C10 C14 C01
+//@   ieee
+//@   requires pod != nil && vectorMap != nil && resource_info.claimsNonNil(draPodClaims)
+//@   requires bindRequest != nil ==> bindRequest.BindRequest != nil
+//@   assume resources.piVal("") == 0 && resources.pfVal("") == 0.0
+//@   note strconv: ParseInt("")/ParseFloat("") return value 0 with ErrSyntax (documented); needed to use the contract of updatePodAdditionalFields, which carries the same assumption
+//@   fresh
+//@   ensures [identity] result.Pod == pod && result.UID == pod.UID && result.Name == pod.Name && result.Namespace == pod.Namespace && result.Job == podGroupOf(pod)
+//@   ensures [status] result.Status == taskStatusOf(pod, bindRequest != nil)
+//@   ensures [selectedNode] result.NodeName == ite(pod.Spec.NodeName == "" && bindRequest != nil, bindRequest.BindRequest.Spec.SelectedNode, pod.Spec.NodeName)
+//@   ensures [selectedGroups] bindRequest != nil && len(bindRequest.BindRequest.Spec.SelectedGPUGroups) > 0 ==> result.GPUGroups == bindRequest.BindRequest.Spec.SelectedGPUGroups
+//@   ensures [request] result.BindRequest == bindRequest
+//@   ensures [realStatus] !result.IsVirtualStatus
+//@   ensures [wf] result.ResReq != nil && fresh(result.ResReq) && result.ResReq.scalarResources != nil && fresh(result.ResReq.scalarResources) && result.AcceptedResource != nil && fresh(result.AcceptedResource) && result.AcceptedResource.scalarResources != nil && fresh(result.AcceptedResource.scalarResources) && result.VectorMap == vectorMap
+//@   ensures [wfMig] (result.ResReq.migResources == nil || fresh(result.ResReq.migResources)) && fresh(result.AcceptedResource.migResources)
+//@   ensures [onePod] result.ResReq.scalarResources[resource_info.PodsResourceName] == 1
 //@ end
